@@ -456,9 +456,14 @@ def c09(tier, seed):
         q.name = q.name.replace("blk_rel1_", "blk_rel1w_"); q.guard = ("AUX:reset_zeroes_seq_gen", False)
     qs = [q_reset(tier, 3)] + strong + weak + q_rel(2)
     if tier == "thorough":
-        qs += [q for q in q_rel(1, K=3) + q_rel(2, K=3)]
-        for q in qs[-18:]:
+        s3 = q_rel(1, K=3, extra_defs=["REL_SEQ_EQUAL"]); w3 = q_rel(1, K=3); d3 = q_rel(2, K=3)
+        for q in s3:
+            q.guard = ("AUX:reset_zeroes_seq_gen", True)
+        for q in w3:
+            q.name = q.name.replace("blk_rel1_", "blk_rel1w_"); q.guard = ("AUX:reset_zeroes_seq_gen", False)
+        for q in s3 + w3 + d3:
             q.name += "_K3"
+        qs += s3 + w3 + d3
     return qs
 
 
